@@ -25,6 +25,8 @@ type Source struct {
 	Why        string // clause of the property's quantifier that makes it nullable
 	WritesOnly bool   // nil map: only map updates are faults
 	Label      string // position-free descriptor
+	// PairContract: also report a return of the value together with a constant nil error
+	PairContract bool
 }
 
 type Finding struct {
@@ -120,6 +122,7 @@ func Check(cfg Config, sources []Source) *Result {
 		lbl string
 	}
 	seen := map[vk]bool{}
+	aliasOf := map[ssa.Value][]ssa.Value{}
 	var work []item
 	push := func(v ssa.Value, src Source, chain []string, note string) {
 		if v == nil {
@@ -151,6 +154,14 @@ func Check(cfg Config, sources []Source) *Result {
 			}
 			facts := flow.FactsAt(b)
 			ev := nonNilAt(v, b, facts, cfg.PairRule)
+			if ev == "" {
+				// a load of a variable that is assigned once: what is known about the assigned value holds for the load
+				for _, o := range aliasOf[v] {
+					if e2 := nonNilAt(o, b, facts, cfg.PairRule); e2 != "" {
+						ev = e2 + " (of the value the variable was assigned)"
+					}
+				}
+			}
 			fault := func(kind string) {
 				if ev != "" {
 					res.Guarded = append(res.Guarded, Guarded{r, it.src, kind, ev})
@@ -183,8 +194,17 @@ func Check(cfg Config, sources []Source) *Result {
 				} else if u.Val == v {
 					// local variable cell: loads become nullable
 					if al, ok := u.Addr.(*ssa.Alloc); ok && ev == "" {
+						nstores := 0
+						for _, r2 := range ssau.Referrers(al) {
+							if st2, isSt := r2.(*ssa.Store); isSt && st2.Addr == ssa.Value(al) {
+								nstores++
+							}
+						}
 						for _, r2 := range ssau.Referrers(al) {
 							if ld, ok := r2.(*ssa.UnOp); ok && ld.Op == token.MUL {
+								if nstores == 1 && ld.Parent() == u.Parent() {
+									aliasOf[ld] = append(append(aliasOf[ld], v), aliasOf[v]...)
+								}
 								push(ld, it.src, it.chain, "via variable "+al.Comment)
 							}
 							if mc, ok := r2.(*ssa.MakeClosure); ok {
@@ -298,6 +318,11 @@ func Check(cfg Config, sources []Source) *Result {
 						idx = i
 					}
 				}
+				// the value half of a (value, error) result returned with a nil error: callers take the nil error as
+				// proof that the value is there (the pair rule), so this return breaks the contract they rely on
+				if idx == 0 && len(u.Results) == 2 && ssau.IsNilConst(u.Results[1]) && u.Results[1].Type().String() == "error" && it.src.PairContract {
+					fault("returned as the value of a (value, nil error) pair")
+				}
 				if idx < 0 || fn.Object() == nil || fn.Object().Exported() {
 					continue
 				}
@@ -342,6 +367,27 @@ func mapElems(cfg Config, m ssa.Value, inEngine func(*ssa.Function) bool, seen m
 	}
 	seen[m] = true
 	var out []ssa.Value
+	// a map kept in a field: every load of that field (of any value of the struct type) may be this map
+	if ld, ok := m.(*ssa.UnOp); ok && ld.Op == token.MUL {
+		if fa, isFA := ld.X.(*ssa.FieldAddr); isFA {
+			for _, g := range cfg.Prog.AllFuncs {
+				if !inEngine(g) {
+					continue
+				}
+				ssau.Instrs(g, func(in ssa.Instruction) {
+					l2, ok2 := in.(*ssa.UnOp)
+					if !ok2 || l2.Op != token.MUL || seen[l2] {
+						return
+					}
+					f2, isF2 := l2.X.(*ssa.FieldAddr)
+					if !isF2 || f2.Field != fa.Field || !types.Identical(f2.X.Type(), fa.X.Type()) {
+						return
+					}
+					out = append(out, mapElems(cfg, l2, inEngine, seen)...)
+				})
+			}
+		}
+	}
 	for _, r := range ssau.Referrers(m) {
 		switch u := r.(type) {
 		case *ssa.Lookup:
